@@ -45,7 +45,14 @@ import (
 const (
 	c05wsMax        = constants.MaxPacketBodySize
 	c05wsAllocBound = 8 * c05wsMax
-	c05wsSpinLimit  = 1000
+	// c05wsAllocBoundMaxMsg is the bound for connections that carry messages up to the
+	// largest legal size. Measured on /repo: a legal MaxPacketBodySize body written by
+	// the real WritePacket over the ws client conn costs 129 MiB in one ReadPacket (97 MiB
+	// for ReadMessage growing its buffer geometrically + pooled body buffer + result copy),
+	// the same packet coalesced into one message 145 MiB (+ the wrapper's rest copy):
+	// 8.1-9.1 x Max. 12 x Max leaves room for a different growth schedule.
+	c05wsAllocBoundMaxMsg = 12 * c05wsMax
+	c05wsSpinLimit        = 1000
 )
 
 var c05wsErrSpin = errors.New("verif: read loop keeps reading a finished websocket conn (spin)")
@@ -153,8 +160,10 @@ func (s *c05wsScript) witness() map[string]any {
 			m["hex"] = hex.EncodeToString(a.Data)
 		} else {
 			m["hex_head"] = hex.EncodeToString(a.Data[:32])
-			h := sha256.Sum256(a.Data)
-			m["sha256"] = hex.EncodeToString(h[:8])
+			if len(a.Data) <= 1<<20 {
+				h := sha256.Sum256(a.Data)
+				m["sha256"] = hex.EncodeToString(h[:8])
+			}
 		}
 		acts = append(acts, m)
 	}
@@ -214,6 +223,7 @@ func c05wsPlay(cc *websocket.Conn, s *c05wsScript) {
 
 type c05wsMeter struct {
 	r           io.Reader
+	delivered   int64
 	reads       int64
 	zeroRun     int64
 	maxZeroRun  int64
@@ -231,6 +241,7 @@ func (m *c05wsMeter) Read(p []byte) (int, error) {
 		}
 	}
 	n, err := m.r.Read(p)
+	m.delivered += int64(n)
 	if err != nil {
 		m.sawErr = true
 	}
@@ -260,6 +271,7 @@ type c05wsObs struct {
 	MaxAlloc uint64
 	MaxBody  int
 	Reads    int64
+	Bytes    int64 // bytes the conn handed to the decoder
 	PostErr  int64
 	ZeroRun  int64
 	Types    []byte
@@ -308,12 +320,21 @@ func c05wsBodyLen(p *packet.TransferPacket) int {
 }
 
 // c05wsServe plays the per-connection read loop on the accepted conn.
-func c05wsServe(sc *wsServerConn, maxCalls int, emptyBudget int64, report func(sig string, extra map[string]any)) (obs c05wsObs) {
+type c05wsServeOpt struct {
+	bound    uint64                                // allocation bound per ReadPacket (0 = c05wsAllocBound)
+	onPacket func(i int, p *packet.TransferPacket) // sees every decoded packet
+}
+
+func c05wsServe(sc *wsServerConn, maxCalls int, emptyBudget int64, report func(sig string, extra map[string]any), opt c05wsServeOpt) (obs c05wsObs) {
+	bound := uint64(c05wsAllocBound)
+	if opt.bound > 0 {
+		bound = opt.bound
+	}
 	meter := &c05wsMeter{r: sc, emptyBudget: emptyBudget}
 	ctx, cancel := context.WithCancel(context.Background())
 	sp := stream.NewStreamProcessor(meter, sc, ctx)
 	defer func() {
-		obs.Reads, obs.PostErr, obs.ZeroRun = meter.reads, meter.postErr, meter.maxZeroRun
+		obs.Reads, obs.PostErr, obs.ZeroRun, obs.Bytes = meter.reads, meter.postErr, meter.maxZeroRun, meter.delivered
 		obs.Close = gen.CloseAsync(func() { sp.Close(); sc.Close() }, 2*time.Second, 20*time.Second)
 		if obs.Close.Hung {
 			report("C05:ws|close-hangs", map[string]any{"after_panic": obs.Panic, "closer_state": obs.Close.State, "closer_parked_at": obs.Close.Frames})
@@ -357,8 +378,8 @@ func c05wsServe(sc *wsServerConn, maxCalls int, emptyBudget int64, report func(s
 		if alloc > obs.MaxAlloc {
 			obs.MaxAlloc = alloc
 		}
-		if alloc > c05wsAllocBound {
-			report("C05:ws|alloc>8xMax", map[string]any{"readpacket_call": i, "allocated_bytes": alloc, "bound": c05wsAllocBound})
+		if alloc > bound {
+			report(fmt.Sprintf("C05:ws|alloc>%dxMax", bound/c05wsMax), map[string]any{"readpacket_call": i, "allocated_bytes": alloc, "bound": bound, "bytes_handed_to_decoder_so_far": meter.delivered})
 		}
 		if stop {
 			return
@@ -374,6 +395,9 @@ func c05wsServe(sc *wsServerConn, maxCalls int, emptyBudget int64, report func(s
 			return
 		}
 		obs.OK++
+		if opt.onPacket != nil {
+			opt.onPacket(i, pkt)
+		}
 		if len(obs.Types) < 8 {
 			obs.Types = append(obs.Types, byte(pkt.PacketType))
 		}
@@ -431,6 +455,10 @@ func (e *c05wsEnv) pair(t *testing.T) (*wsServerConn, *websocket.Conn) {
 
 // c05wsExec runs one script on a fresh connection. ok=false: harness watchdog.
 func c05wsExec(t *testing.T, run *vk.Run, env *c05wsEnv, s *c05wsScript, hits *int) (c05wsObs, bool) {
+	return c05wsExecOpt(t, run, env, s, hits, c05wsServeOpt{})
+}
+
+func c05wsExecOpt(t *testing.T, run *vk.Run, env *c05wsEnv, s *c05wsScript, hits *int, opt c05wsServeOpt) (c05wsObs, bool) {
 	run.Case("ws|"+s.Family+"/"+s.Sub, s.witness())
 	sc, cc := env.pair(t)
 	report := func(sig string, extra map[string]any) {
@@ -444,7 +472,7 @@ func c05wsExec(t *testing.T, run *vk.Run, env *c05wsEnv, s *c05wsScript, hits *i
 	played := make(chan struct{})
 	go func() { defer close(played); c05wsPlay(cc, s) }()
 	done := make(chan c05wsObs, 1)
-	go func() { done <- c05wsServe(sc, s.bytesTotal()+len(s.Acts)+2, s.emptyBudget(), report) }()
+	go func() { done <- c05wsServe(sc, s.bytesTotal()+len(s.Acts)+2, s.emptyBudget(), report, opt) }()
 	wd := time.NewTimer(150 * time.Second)
 	defer wd.Stop()
 	var o c05wsObs
@@ -542,13 +570,14 @@ func c05wsPacketsFill(n int, body int) []byte {
 
 var c05wsHandshake = []byte(`{"client_id":0,"token":"new-client","version":"3.0","protocol":"websocket","connection_type":"control"}`)
 
-// TestVerifC05WSBigFrames: single binary frames around and far above the 64 KiB
-// WebSocket buffer size.
+// TestVerifC05WSBigFrames: binary messages around and far above the 64 KiB WebSocket
+// buffer size, each sent both as ONE frame (hand-built) and the way the gorilla client
+// sends it (a fragmented message of 4 KiB frames).
 func TestVerifC05WSBigFrames(t *testing.T) {
 	vk.Quiet()
 	run := vk.Start(t, "C05", "ws-bigframes")
 	defer run.Finish()
-	run.Rule("pre-auth single binary WebSocket frames of sizes {1,5,4KiB,64KiB-1,64KiB,64KiB+1,+2,+5,+6,100000,1MiB,4MiB} into the adapter's accepted wsServerConn + ReadPacket loop; content per size: one packet filling the frame exactly, whole packets of ~1000 bytes filling it, a declared length longer than the frame, seeded random bytes, one packet spanning two frames of that size; followed by a well-formed handshake packet in a message of its own; ends fin / close+fin / rst; distinct = (size, content, outcome)")
+	run.Rule("pre-auth binary WebSocket messages of sizes {1,5,4KiB,64KiB-1,64KiB,64KiB+1,+2,+5,+6,100000,1MiB,4MiB}, each as one single frame and as a message fragmented into 4 KiB frames, into the adapter's accepted wsServerConn + ReadPacket loop; content per size: one packet filling the frame exactly, whole packets of ~1000 bytes filling it, a declared length longer than the frame, seeded random bytes, one packet spanning two frames of that size; followed by a well-formed handshake packet in a message of its own; ends fin / close+fin / rst; distinct = (size, content, outcome)")
 	env := c05wsNewEnv(t)
 	defer env.Close()
 	r := run.Rand("gen")
@@ -559,7 +588,11 @@ func TestVerifC05WSBigFrames(t *testing.T) {
 loop:
 	for rep := 0; rep < run.Pick(1, 4); rep++ {
 		for _, S := range sizes {
-			for _, content := range []string{"one-packet", "packets-1k", "declared-longer", "random", "spanning-two-frames"} {
+			for ci, content := range []string{"one-packet", "packets-1k", "declared-longer", "random", "spanning-two-frames", "one-packet", "packets-1k", "declared-longer", "random", "spanning-two-frames"} {
+				delivery := "single-frame"
+				if ci >= 5 {
+					delivery = "fragmented-4KiB"
+				}
 				var acts []c05wsAct
 				wantOK := -1
 				switch content {
@@ -585,8 +618,13 @@ loop:
 					acts = []c05wsAct{c05wsBin(p[:S]), c05wsBin(p[S:])}
 					wantOK = 2
 				}
+				if delivery == "single-frame" {
+					for i := range acts {
+						acts[i] = c05wsRaw("one binary frame (FIN, opcode 2, masked)", c05wsF(0x82, acts[i].Data))
+					}
+				}
 				acts = append(acts, c05wsBin(hs))
-				s := &c05wsScript{Family: "bigframe", Sub: fmt.Sprintf("size=%d/%s", S, content), Acts: acts, End: []string{"fin", "close+fin", "rst"}[n%3]}
+				s := &c05wsScript{Family: "bigframe", Sub: fmt.Sprintf("size=%d/%s/%s", S, content, delivery), Acts: acts, End: []string{"fin", "close+fin", "rst"}[n%3]}
 				n++
 				o, ok := c05wsExec(t, run, env, s, &hits)
 				if !ok {
@@ -618,9 +656,9 @@ loop:
 		run.Count("completed_without_watchdog", 1)
 	}
 	run.Floor("completed_without_watchdog", 1)
-	run.Floor("frames_over_64KiB", 30)
-	run.Floor("frames_1MiB_and_more", 10)
-	run.Floor("wellformed_big_frames_decoded", 12)
+	run.Floor("frames_over_64KiB", 60)
+	run.Floor("frames_1MiB_and_more", 20)
+	run.Floor("wellformed_big_frames_decoded", 24)
 }
 
 // c05wsNoise is a legal-but-useless frame a peer may put anywhere between data frames.
@@ -950,4 +988,217 @@ loop:
 	run.Floor("outcome_non_binary_message_rejected", 10)
 	run.Floor("outcome_websocket_read_error", 50)
 	run.Floor("scripts_tolerated_both_packets_decoded", 12)
+}
+
+// TestVerifC05WSOversize: messages larger than any packet can be. The server must not
+// buffer them: allocation per ReadPacket stays under the bound that holds for the
+// largest LEGAL message (measured, see c05wsAllocBoundMaxMsg), and the conn reports an
+// error instead of handing bytes of such a message to the decoder. The counterpart
+// keeps the bound honest from below: a MaxPacketBodySize body written by the real
+// WritePacket over the real ws client conn must still decode.
+func TestVerifC05WSOversize(t *testing.T) {
+	vk.Quiet()
+	run := vk.Start(t, "C05", "ws-oversize")
+	defer run.Finish()
+	run.Rule("pre-auth messages of 17, 24, 64 MiB (thorough: +128 MiB) into the adapter's accepted wsServerConn + ReadPacket loop, each as ONE binary frame and as the gorilla client sends it (4 KiB fragments), as the first thing on the connection and after a well-formed handshake packet; fragmented messages whose continuation frames sum past the cap (24 x 1 MiB, 400 x 64 KiB, 15.5 MiB of 64 KiB fragments + one 30 MiB final fragment, 1 MiB + 2^40 declared); content = a packet header declaring 4 GiB so that the decoder stops at once if it is given the bytes; oracle: TotalAlloc per ReadPacket <= 12 x Max (legal 16 MiB messages cost 8.1-9.1 x Max on /repo) and zero bytes of the oversize message reach the decoder (Read errors); plus the legal maximum: Max-byte body by the real WritePacket over the adapter's own client conn (and the same packet coalesced into one message) decodes identically; distinct = (case, delivery, position, outcome)")
+	env := c05wsNewEnv(t)
+	defer env.Close()
+	hits := 0
+	opt := c05wsServeOpt{bound: c05wsAllocBoundMaxMsg}
+
+	// ---- the largest legal message --------------------------------------------------
+	body := c05wsPattern(c05wsMax, 7)
+	sentinel := []byte("sentinel")
+	{
+		ctx, cancel := context.WithCancel(context.Background())
+		cli := NewWebSocketAdapter(ctx, nil)
+		run.Case("ws|legal-max/real-writer", map[string]any{"body_len": len(body)})
+		c, err := cli.Dial(env.url)
+		if err != nil {
+			t.Fatalf("adapter dial: %v", err)
+		}
+		s, err := env.srv.Accept()
+		if err != nil {
+			t.Fatalf("accept: %v", err)
+		}
+		sc := s.(*wsServerConn)
+		wdone := make(chan error, 1)
+		go func() {
+			sp := stream.NewStreamProcessor(strings.NewReader(""), c, ctx)
+			_, err := sp.WritePacket(&packet.TransferPacket{PacketType: packet.TunnelData, Payload: body}, false, 0)
+			if err == nil {
+				_, err = sp.WritePacket(&packet.TransferPacket{PacketType: packet.TunnelClose, Payload: sentinel}, false, 0)
+			}
+			wdone <- err
+			c.Close() // normal close frame: end of the finite stream
+		}()
+		var got [][]byte
+		report := func(sig string, extra map[string]any) {
+			extra["case"] = "MaxPacketBodySize body written by the real WritePacket over the adapter's ws client conn"
+			hits++
+			run.Violation(sig, extra)
+		}
+		o := c05wsServe(sc, 8, 64, report, c05wsServeOpt{bound: c05wsAllocBoundMaxMsg, onPacket: func(i int, p *packet.TransferPacket) { got = append(got, p.Payload) }})
+		werr := <-wdone
+		cli.Close()
+		cancel()
+		run.Eval(1)
+		run.Max("max_alloc_one_readpacket", int64(o.MaxAlloc))
+		run.Observe("legal_max_real_writer", map[string]any{"alloc_one_readpacket": o.MaxAlloc, "decoded": o.OK, "last_error": o.ErrFull, "writer_error": fmt.Sprint(werr)})
+		switch {
+		case o.Watchdog:
+			run.Count("watchdog", 1)
+		case len(got) == 2 && string(got[0]) == string(body) && string(got[1]) == string(sentinel):
+			run.Count("legal_max_message_decoded", 1)
+			run.Distinct("legal-max|real-writer|decoded")
+		case o.Panic == "":
+			hits++
+			run.Violation("C05:ws|legal-max-message-not-decoded", map[string]any{"case": "MaxPacketBodySize body written by the real WritePacket over the adapter's ws client conn, then a sentinel packet",
+				"packets_decoded": o.OK, "first_payload_len": func() int {
+					if len(got) > 0 {
+						return len(got[0])
+					}
+					return -1
+				}(), "last_error": o.ErrFull, "writer_error": fmt.Sprint(werr), "bytes_handed_to_decoder": o.Bytes})
+		}
+	}
+	{
+		// the same packet coalesced into one message (Max+5 bytes): evidence only — whether a
+		// message may exceed the body cap by the header is the transport's choice
+		s := &c05wsScript{Family: "legal-max", Sub: "coalesced-one-message", Acts: []c05wsAct{c05wsBin(gen.Frame(0x22, body)), c05wsBin(gen.Frame(0x23, sentinel))}, End: "close+fin"}
+		if o, ok := c05wsExecOpt(t, run, env, s, &hits, opt); ok {
+			run.Observe("legal_max_coalesced", map[string]any{"alloc_one_readpacket": o.MaxAlloc, "decoded": o.OK, "last_error": o.ErrFull})
+			if o.OK == 2 {
+				run.Count("legal_max_coalesced_decoded", 1)
+			}
+		}
+	}
+	body = nil
+	runtime.GC()
+
+	// ---- oversize messages -------------------------------------------------------------
+	hs := gen.Frame(0x01, c05wsHandshake)
+	judge := func(s *c05wsScript, o c05wsObs, prefix int, oversize int64) {
+		run.Count("oversize_messages_sent", 1)
+		if o.Panic != "" {
+			return
+		}
+		if o.Bytes > int64(prefix) {
+			hits++
+			w := s.witness()
+			w["oversize_message_bytes"] = oversize
+			w["bytes_handed_to_decoder"] = o.Bytes
+			w["bytes_sent_before_the_oversize_message"] = prefix
+			w["alloc_one_readpacket"] = o.MaxAlloc
+			w["last_error"] = o.ErrFull
+			// Observation only: the property bounds allocation, it does not require the
+			// message to be refused (a server streaming it in bounded pieces would comply).
+			run.Count("oversize_messages_with_data_delivered", 1)
+			run.Sample(w)
+		} else {
+			run.Count("oversize_messages_refused_without_data", 1)
+		}
+		if strings.Contains(o.ErrFull, "read limit") {
+			run.Count("outcome_read_limit_exceeded", 1)
+		}
+	}
+	sizesMiB := []int{17, 24, 64}
+	if run.Thorough() {
+		sizesMiB = append(sizesMiB, 128)
+	}
+	stopped := false
+	for _, mb := range sizesMiB {
+		if stopped {
+			break
+		}
+		data := gen.FrameLen(0x22, 0xFFFFFFFF, make([]byte, mb<<20-5))
+		single := c05wsF(0x82, data)
+		for i, delivery := range []string{"single-frame", "fragmented-4KiB", "single-frame", "fragmented-4KiB"} {
+			pos := "first"
+			var acts []c05wsAct
+			prefix := 0
+			if i >= 2 {
+				pos = "after-handshake-packet"
+				acts = append(acts, c05wsBin(hs))
+				prefix = len(hs)
+			}
+			if delivery == "single-frame" {
+				acts = append(acts, c05wsRaw(fmt.Sprintf("one binary frame of %d MiB: type 0x22, declared length 2^32-1, zeros", mb), single))
+			} else {
+				acts = append(acts, c05wsAct{Kind: "bin", Data: data, Note: fmt.Sprintf("one binary message of %d MiB (gorilla client: 4 KiB frames): type 0x22, declared length 2^32-1, zeros", mb)})
+			}
+			s := &c05wsScript{Family: "oversize", Sub: fmt.Sprintf("%dMiB/%s#%s", mb, delivery, pos), Acts: acts, End: "fin"}
+			o, ok := c05wsExecOpt(t, run, env, s, &hits, opt)
+			if !ok {
+				stopped = true
+				break
+			}
+			judge(s, o, prefix, int64(len(data)))
+			if delivery == "single-frame" {
+				run.Count("oversize_single_frames", 1)
+			}
+		}
+		data, single = nil, nil
+		runtime.GC()
+	}
+	// fragmented messages whose continuation frames sum past the cap
+	type fragCase struct {
+		name  string
+		build func() ([]byte, int64)
+	}
+	frag := func(first []byte, mid int, midSize int, last []byte) ([]byte, int64) {
+		chunk := make([]byte, midSize)
+		raw := c05wsF(0x02, first)
+		total := int64(len(first))
+		for i := 0; i < mid; i++ {
+			raw = append(raw, c05wsF(0x00, chunk)...)
+			total += int64(midSize)
+		}
+		raw = append(raw, c05wsF(0x80, last)...)
+		return raw, total + int64(len(last))
+	}
+	head := gen.FrameLen(0x22, 0xFFFFFFFF, make([]byte, 1<<16-5))
+	frags := []fragCase{
+		{"24x1MiB", func() ([]byte, int64) { return frag(head, 23, 1<<20, make([]byte, 1<<20)) }},
+		{"400x64KiB", func() ([]byte, int64) { return frag(head, 398, 1<<16, make([]byte, 1<<16)) }},
+		{"15.5MiB-in-64KiB+30MiB-final", func() ([]byte, int64) { return frag(head, 247, 1<<16, make([]byte, 30<<20)) }},
+		{"1MiB+declared-2^40", func() ([]byte, int64) {
+			raw, n := frag(head, 15, 1<<16, nil)
+			raw = raw[:len(raw)-len(c05wsF(0x80, nil))]
+			return append(raw, c05wsRawFrame(0x80, true, 64, 1<<40, 0, make([]byte, 1<<16), [4]byte{1, 2, 3, 4})...), n + 1<<40
+		}},
+	}
+	for _, fc := range frags {
+		if stopped {
+			break
+		}
+		raw, total := fc.build()
+		for _, pos := range []string{"first", "after-handshake-packet"} {
+			var acts []c05wsAct
+			prefix := 0
+			if pos != "first" {
+				acts = append(acts, c05wsBin(hs))
+				prefix = len(hs)
+			}
+			acts = append(acts, c05wsRaw("fragmented binary message, continuation frames sum to "+fmt.Sprint(total)+" bytes; starts with type 0x22, declared length 2^32-1", raw))
+			s := &c05wsScript{Family: "oversize", Sub: "frag-" + fc.name + "#" + pos, Acts: acts, End: "fin"}
+			o, ok := c05wsExecOpt(t, run, env, s, &hits, opt)
+			if !ok {
+				stopped = true
+				break
+			}
+			judge(s, o, prefix, total)
+			run.Count("oversize_fragmented_messages", 1)
+		}
+		raw = nil
+		runtime.GC()
+	}
+	if !stopped && run.Counter("watchdog") == 0 {
+		run.Count("completed_without_watchdog", 1)
+	}
+	run.Floor("completed_without_watchdog", 1)
+	run.Floor("legal_max_message_decoded", 1)
+	run.Floor("oversize_single_frames", 6)
+	run.Floor("oversize_fragmented_messages", 8)
+	run.Floor("oversize_messages_sent", 20)
 }
